@@ -1449,6 +1449,9 @@ class TrigInfo:
         async def do_func_call(func, ast_ctx, task_unique, task_unique_func, hass_context, /, **kwargs):
             # Store HASS Context for this Task
             Function.store_hass_context(hass_context)
+            # the shutdown run is started by the waiter without an evaluator: make sure the task has
+            # its done-callback table (a no-op when create_task registered it already)
+            Function.task_done_callback_ctx(asyncio.current_task(), ast_ctx)
 
             if task_unique is not None and task_unique_func:
                 # the check above and this claim are not atomic (several triggers can fire at the same
